@@ -119,11 +119,17 @@ CLAIMED["C01"] = ("Proof (deductive, every reply the AMF may send, every configu
   "NOT decided: acceptance by a reference AMF as a whole conversation (no peer is run; kernel SCTP and a socket hook are not used by this technique), the contents of the NAS messages built by nasTestpacket (constructors are assumed: they record what they were asked to build), "
   "the decoded contents the driver reads from replies (ngap.Decoder is assumed to return a message or an error). Functional preconditions of callees are assumed at driver level (proved where the callee is claimed). Run-time panics end the procedure.",
   "DESIGN.md §I.2 C01")
-CLAIMED["C02"] = ("Proof (deductive, every reply, every UE state) at driver level over the same ghost logs: EstablishPDU, ServiceRequest, ReleasePDU and DeregisterUE build exactly the NGAP messages of their procedure in order, each with the UE's own AMF-UE-NGAP-ID and RAN-UE-NGAP-ID; "
-  "one PDU session identity in 1..15 is used in the NAS request, the NAS release complete and the NGAP response of a procedure (for every SUPI \"imsi-\" + up to 15 digits); every protected NAS message uses header type 2, the stored uplink COUNT, and leaves COUNT+1 stored — so within a procedure and across consecutive procedures no COUNT is used twice before 2^24 messages; "
-  "the reported UE address / TEID / UPF address are the extractors' results (C12).",
-  "NOT decided: main()'s loops (UE counts, Min clamps, which index each loop acts on) — main is outside the executor's subset (channels, third-party XDP packages, slices of pointers of symbolic length); acceptance by a reference AMF/SMF; NAS message contents (assumed constructors). "
-  "COUNT wrap after 2^24 protected messages is not excluded by the code and not claimed. Found and repaired under this check: the session identity was the last four SUPI digits, truncated differently in NAS and NGAP (fix commit in /repo).",
+CLAIMED["C02"] = ("Proof (deductive, every reply, every UE state, every UE count and repetition count) in three layers. "
+  "(1) main() in test mode (argument vector [_, -t], any configuration): loop invariants len(ueList) = len(pduList) = number of registrations done; every ueList[i] / pduList[i] is in range; "
+  "the number of establishments is at most the number of registered UEs, the numbers of service requests and releases at most the number of establishments, the number of deregistrations at most the number of registered UEs "
+  "(so no procedure is attempted for a UE whose prerequisite loop did not reach it), for counts larger than the number of UEs and for negative counts; stgutg.Min proved. "
+  "(2) Each procedure (EstablishPDU, ServiceRequest, ReleasePDU, DeregisterUE) at driver level over ghost logs written by the contracts of the callees: exactly the NGAP messages of the procedure in order, each with the UE's own AMF-UE-NGAP-ID and RAN-UE-NGAP-ID; "
+  "one PDU session identity in 1..15 in the NAS request, the release complete and the NGAP response; every protected NAS message uses header type 2 and the stored uplink COUNT, which ends one higher (EncodeNasPduWithSecurity proved against NASEncode's contract) — no COUNT is used twice before 2^24 messages. "
+  "(3) Relational lemma: establishment, service request and release run one after the other on one UE use the same PDU session identity in all six places. "
+  "The check also runs the contracts it composes: C06 (envelope, COUNT), C12 (UE address / TEID / UPF address extraction), C13 (NGAP builders and wire form).",
+  "NOT decided: traffic mode of main() (blocks on a channel; XDP packages), acceptance by a reference AMF/SMF (no peer is run), NAS message contents (constructors assumed: they record what they were asked to build), that loop k of main passes element i (and not another element) is read off the index obligations only. "
+  "Assumed: elements of the UE list are non-nil (no element invariants for lists of symbolic length), the procedures return or end the process (their `returns` case), COUNT wrap after 2^24 protected messages is not excluded by the code and not claimed. "
+  "Found and repaired under this check: the session identity was the last four SUPI digits, truncated differently in NAS and NGAP (fix commit in /repo).",
   "DESIGN.md §I.2 C02")
 
 PENDING = {
